@@ -36,6 +36,6 @@ def run(idx, rep, tier):
     # compiled code raises ZeroDivisionError where the interpreted numpy scalar division gives inf / nan: in the compiled closed-form distance functions a
     # division by a magnitude sits on the non-zero side of a test of that magnitude
     safediv.r_safediv(idx, rep, floor=3, unknown_ceiling=2,
-                      funcs=[f for m in idx.lib_modules() if m.name.startswith("distance3d.distance") for f in m.functions.values() if any("njit" in d for d in f.decorators)])
+                      funcs=[f for m in idx.lib_modules() if m.name.startswith("distance3d.distance") or m.name == "distance3d.geometry" for f in m.functions.values() if any("njit" in d for d in f.decorators)])
     generic2.r_guardafteruse(idx, rep, [m.name for m in idx.lib_modules()], floor=8)
     unpack.r_unpack(idx, rep, floor=106)
